@@ -813,6 +813,28 @@ Proof.
   - apply IH, Hm.
 Qed.
 
+Lemma pbf_acc_nonempty b f : forall q acc, acc <> [] -> print_base_fuel b f q acc <> [].
+Proof.
+  induction f as [|f IHf]; intros q acc Hacc; cbn [print_base_fuel]; [exact Hacc|].
+  destruct (q / b =? 0)%N; [discriminate|]. apply IHf. discriminate.
+Qed.
+
+Lemma pbf_nonempty b f n acc : print_base_fuel b (S f) n acc <> [].
+Proof. cbn [print_base_fuel]. destruct (n / b =? 0)%N; [discriminate|]. apply pbf_acc_nonempty. discriminate. Qed.
+
+Lemma render_digits_nonempty v n : render_digits v n <> [].
+Proof.
+  destruct v; unfold render_digits, print_decN, print_hexN, print_binN; try apply pbf_nonempty.
+  intros E. apply map_eq_nil in E. revert E. apply pbf_nonempty.
+Qed.
+
+Lemma tmpname_nonempty cfg t : tmpname cfg t <> [].
+Proof.
+  unfold tmpname, render_fmt, pad. intros E.
+  apply app_eq_nil in E as [_ E]. apply app_eq_nil in E as [E _]. apply app_eq_nil in E as [_ E].
+  revert E. apply render_digits_nonempty.
+Qed.
+
 Section Names.
 Variable cfg : alloc_cfg.
 Hypothesis Hcfg : cfg_ok cfg.
@@ -857,15 +879,7 @@ Proof using Hcfg HN.
   intros Hk. destruct (nm_class k Hk) as [(_ & E)|[(_ & _ & _ & E)|(_ & _ & _ & Hin)]].
   - rewrite E. apply (ck_in _ Hcfg).
   - rewrite E. apply (ck_out _ Hcfg).
-  - destruct (temps_are_tmpnames _ Hin) as (t & E). rewrite E. unfold tmpname. intros H.
-    apply app_eq_nil in H as [_ H]. unfold print_decN, print_base_fuel in H.
-    destruct (N.of_nat t / 10 =? 0)%N; [discriminate H|].
-    revert H. generalize (hexchar (N.of_nat t mod 10)). generalize (N.of_nat t / 10)%N.
-    generalize (N.to_nat (N.size (N.of_nat t))). intros f. fold print_base_fuel.
-    assert (Hne : forall f q acc, acc <> [] -> print_base_fuel 10 f q acc <> []).
-    { induction f0 as [|f0 IHf]; intros q acc Hacc; cbn [print_base_fuel]; [exact Hacc|].
-      destruct (q / 10 =? 0)%N; [discriminate|]. apply IHf. discriminate. }
-    intros q c. apply Hne. discriminate.
+  - destruct (temps_are_tmpnames _ Hin) as (t & E). rewrite E. apply tmpname_nonempty.
 Qed.
 
 (* naming_sound: distinct variables get distinct names *)
@@ -1128,6 +1142,64 @@ Qed.
 (* ------------------------------------------------------------------ configurations: when cfg_ok holds *)
 Open Scope N_scope.
 
+(* a left inverse of the number rendering, used only in proofs: reads a numeral in the given base
+   where a space counts as the digit 0 (so that space padding and zero padding are both skipped)
+   and upper-case hex digits are accepted *)
+Definition dval (c : N) : option N :=
+  if c =? 32 then Some 0
+  else if (48 <=? c) && (c <=? 57) then Some (c - 48)
+  else if (97 <=? c) && (c <=? 102) then Some (c - 87)
+  else if (65 <=? c) && (c <=? 70) then Some (c - 55)
+  else None.
+
+Fixpoint pv (base a : N) (s : list N) : option N :=
+  match s with
+  | [] => Some a
+  | c :: r => match dval c with Some d => pv base (a * base + d) r | None => None end
+  end.
+
+Lemma pv_app base s1 : forall a s2,
+  pv base a (s1 ++ s2) = match pv base a s1 with Some a' => pv base a' s2 | None => None end.
+Proof.
+  induction s1 as [|c s1 IH]; intros a s2; cbn [app pv]; [reflexivity|].
+  destruct (dval c); [apply IH|reflexivity].
+Qed.
+
+Lemma dval_hexchar r : r < 16 -> dval (hexchar r) = Some r /\ dval (upcase (hexchar r)) = Some r.
+Proof.
+  intros Hr. unfold hexchar. destruct (r <? 10) eqn:E.
+  - apply N.ltb_lt in E. assert (H : 48 + r = 48 \/ 48 + r = 49 \/ 48 + r = 50 \/ 48 + r = 51 \/ 48 + r = 52 \/
+      48 + r = 53 \/ 48 + r = 54 \/ 48 + r = 55 \/ 48 + r = 56 \/ 48 + r = 57) by lia.
+    assert (Er : forall k, 48 + r = k -> r = k - 48) by (intros; lia).
+    destruct H as [H|[H|[H|[H|[H|[H|[H|[H|[H|H]]]]]]]]]; rewrite H; rewrite (Er _ H); split; reflexivity.
+  - apply N.ltb_ge in E. assert (H : 87 + r = 97 \/ 87 + r = 98 \/ 87 + r = 99 \/ 87 + r = 100 \/ 87 + r = 101 \/ 87 + r = 102) by lia.
+    assert (Er : forall k, 87 + r = k -> r = k - 87) by (intros; lia).
+    destruct H as [H|[H|[H|[H|[H|H]]]]]; rewrite H; rewrite (Er _ H); split; reflexivity.
+Qed.
+
+(* the digits printed for n read back as n, in lower and in upper case *)
+Lemma print_base_parse base f : 2 <= base <= 16 -> forall n l, (0 < f)%nat -> n < 2 ^ N.of_nat f ->
+  exists ds k, print_base_fuel base f n l = ds ++ l /\
+               (forall a, pv base a ds = Some (a * k + n)) /\ (forall a, pv base a (map upcase ds) = Some (a * k + n)).
+Proof.
+  intros Hb. induction f as [|f IH]; intros n l Hf Hn; [lia|]. cbn [print_base_fuel].
+  assert (Hr : n mod base < 16) by (pose proof (N.mod_lt n base ltac:(lia)); lia).
+  pose proof (N.div_mod n base ltac:(lia)) as Hdm.
+  destruct (dval_hexchar _ Hr) as [D1 D2].
+  destruct (n / base =? 0) eqn:Eq.
+  - apply N.eqb_eq in Eq. exists [hexchar (n mod base)], base. split; [reflexivity|].
+    split; intros a; cbn [map pv]; rewrite ?D1, ?D2; f_equal; nia.
+  - apply N.eqb_neq in Eq.
+    assert (Hq : n / base < 2 ^ N.of_nat f).
+    { apply N.div_lt_upper_bound; [lia|]. rewrite Nat2N.inj_succ, N.pow_succ_r' in Hn. nia. }
+    assert (Hf' : (0 < f)%nat).
+    { destruct f as [|f']; [|lia]. exfalso. change (2 ^ N.of_nat 0) with 1 in Hq. apply Eq. apply N.lt_1_r. exact Hq. }
+    destruct (IH (n / base) (hexchar (n mod base) :: l) Hf' Hq) as (ds & k & E & Hp & Hpu).
+    exists (ds ++ [hexchar (n mod base)]), (k * base). split; [rewrite E, <- app_assoc; reflexivity|].
+    split; intros a; rewrite ?map_app, pv_app, ?Hp, ?Hpu; cbn [map pv]; rewrite ?D1, ?D2; f_equal; nia.
+Qed.
+
+(* decimal special case in terms of Proto.parse_dec_acc (used by proofs/GenProofs.v) *)
 Lemma parse_dec_acc_app s1 : forall a s2,
   parse_dec_acc a (s1 ++ s2) = match parse_dec_acc a s1 with Some a' => parse_dec_acc a' s2 | None => None end.
 Proof.
@@ -1164,21 +1236,73 @@ Proof.
     + intros a. rewrite parse_dec_acc_app, Hp, (dec_digit _ Hr). f_equal. lia.
 Qed.
 
-Lemma print_decN_inj n m : print_decN n = print_decN m -> n = m.
+(* every byte of a rendered number is a digit, a letter or a space: at least 32 *)
+Lemma hexchar_ge r : 48 <= hexchar r.
+Proof. unfold hexchar. destruct (r <? 10); lia. Qed.
+
+Lemma pbf_chars b f : forall n l c, In c (print_base_fuel b f n l) -> In c l \/ 48 <= c.
 Proof.
-  intros E.
-  assert (H : forall x, exists ds, print_decN x = ds /\ parse_dec_acc 0 ds = Some x).
-  { intros x. unfold print_decN.
-    destruct (print_dec_parse (S (N.to_nat (N.size x))) x []) as (ds & k & Ed & Hp); [lia| |].
-    - rewrite Nat2N.inj_succ, N2Nat.id, N.pow_succ_r'. pose proof (N.size_gt x). lia.
-    - exists ds. rewrite Ed, app_nil_r. split; [reflexivity|]. rewrite Hp. f_equal. }
-  destruct (H n) as (d1 & E1 & P1). destruct (H m) as (d2 & E2 & P2).
-  assert (d1 = d2) by congruence. subst. congruence.
+  induction f as [|f IH]; intros n l c Hc; cbn [print_base_fuel] in Hc; [now left|].
+  destruct (n / b =? 0).
+  - destruct Hc as [<-|Hc]; [right; apply hexchar_ge|now left].
+  - destruct (IH _ _ _ Hc) as [[<-|H]|H]; [right; apply hexchar_ge|now left|now right].
 Qed.
 
+Lemma tmpname_chars cfg t c : In c (tmpname cfg t) ->
+  In c (cfg_prefix cfg) \/ In c (f_suffix (cfg_fmt cfg)) \/ 32 <= c.
+Proof.
+  unfold tmpname, render_fmt, pad, cfg_prefix. rewrite !in_app_iff. intros [H|[[H|H]|H]]; auto.
+  - apply repeat_spec in H. subst c. right. right. destruct (f_zero (cfg_fmt cfg)); lia.
+  - right. right.
+    assert (Hp : forall c' b f n, In c' (print_base_fuel b f n []) -> 32 <= c').
+    { intros c' b f n Hc. destruct (pbf_chars _ _ _ _ _ Hc) as [[]|Hc']. lia. }
+    destruct (f_verb (cfg_fmt cfg)); unfold render_digits, print_decN, print_hexN, print_binN in H; try (apply Hp in H; exact H).
+    apply in_map_iff in H as (c0 & <- & H0). apply Hp in H0. unfold upcase.
+    destruct ((97 <=? c0) && (c0 <=? 122)) eqn:E; [|exact H0].
+    apply andb_true_iff in E as [E _]. apply N.leb_le in E. lia.
+Qed.
+
+Definition verb_base (v : verb) : N :=
+  match v with VDec => 10 | VHex => 16 | VHexUp => 16 | VOct => 8 | VBin => 2 end.
+
+Lemma render_digits_value v n : pv (verb_base v) 0 (render_digits v n) = Some n.
+Proof.
+  assert (H : forall base, 2 <= base <= 16 ->
+            exists ds, print_base_fuel base (S (N.to_nat (N.size n))) n [] = ds /\
+                       pv base 0 ds = Some n /\ pv base 0 (map upcase ds) = Some n).
+  { intros base Hb.
+    destruct (print_base_parse base (S (N.to_nat (N.size n))) Hb n []) as (ds & k & Ed & Hp & Hpu); [lia| |].
+    - rewrite Nat2N.inj_succ, N2Nat.id, N.pow_succ_r'. pose proof (N.size_gt n). lia.
+    - exists ds. rewrite Ed, app_nil_r. split; [reflexivity|]. rewrite Hp, Hpu. split; f_equal. }
+  destruct v; cbn [verb_base render_digits]; unfold print_decN, print_hexN, print_binN.
+  - destruct (H 10 ltac:(lia)) as (ds & -> & P & _). exact P.
+  - destruct (H 16 ltac:(lia)) as (ds & -> & P & _). exact P.
+  - destruct (H 16 ltac:(lia)) as (ds & -> & _ & P). exact P.
+  - destruct (H 8 ltac:(lia)) as (ds & -> & P & _). exact P.
+  - destruct (H 2 ltac:(lia)) as (ds & -> & P & _). exact P.
+Qed.
+
+(* padding with zeros or spaces does not change the value read back *)
+Lemma pv_pad base z w s : pv base 0 (pad z w s) = pv base 0 s.
+Proof.
+  unfold pad. induction (w - length s)%nat as [|k IH]; cbn [repeat app]; [reflexivity|].
+  cbn [pv]. assert (E : dval (if z then 48 else 32) = Some 0) by (destruct z; reflexivity).
+  rewrite E, N.mul_0_l, N.add_0_l. exact IH.
+Qed.
+
+Lemma print_decN_inj n m : print_decN n = print_decN m -> n = m.
+Proof.
+  intros E. pose proof (render_digits_value VDec n) as H1. pose proof (render_digits_value VDec m) as H2.
+  cbn [render_digits] in H1, H2. rewrite E in H1. congruence.
+Qed.
+
+(* the rendering of the counter is injective for every supported verb, flag and width *)
 Lemma tmpname_inj cfg n m : tmpname cfg n = tmpname cfg m -> n = m.
 Proof.
-  unfold tmpname. intros E. apply app_inv_head in E. apply print_decN_inj in E. now apply Nat2N.inj.
+  unfold tmpname, render_fmt. intros E. apply app_inv_head in E. apply app_inv_tail in E.
+  pose proof (pv_pad (verb_base (f_verb (cfg_fmt cfg))) (f_zero (cfg_fmt cfg)) (f_width (cfg_fmt cfg))
+                (render_digits (f_verb (cfg_fmt cfg)) (N.of_nat n))) as H1.
+  rewrite E, pv_pad, !render_digits_value in H1. injection H1 as H1. now apply Nat2N.inj.
 Qed.
 
 Fixpoint is_prefix (a b : list N) : bool :=
@@ -1191,14 +1315,21 @@ Fixpoint is_prefix (a b : list N) : bool :=
 Lemma is_prefix_app a : forall r, is_prefix a (a ++ r) = true.
 Proof. induction a as [|x a IH]; intros r; cbn [is_prefix app]; [reflexivity|]. now rewrite N.eqb_refl, IH. Qed.
 
-(* a sufficient condition that is easy to check: the temporary prefix is a prefix of neither name *)
+(* a sufficient condition that is easy to check: the literal text in front of the verb is a prefix
+   of neither name *)
 Theorem cfg_ok_intro cfg : cfg_in cfg <> [] -> cfg_out cfg <> [] -> cfg_in cfg <> cfg_out cfg ->
   is_prefix (cfg_prefix cfg) (cfg_in cfg) = false -> is_prefix (cfg_prefix cfg) (cfg_out cfg) = false ->
   cfg_ok cfg.
 Proof.
   intros H1 H2 H3 H4 H5. constructor; auto.
-  - intros n E. unfold tmpname in E. rewrite <- E, is_prefix_app in H4. discriminate.
-  - intros n E. unfold tmpname in E. rewrite <- E, is_prefix_app in H5. discriminate.
+  - intros n E. unfold tmpname, render_fmt in E. unfold cfg_prefix in H4. rewrite <- E, is_prefix_app in H4. discriminate.
+  - intros n E. unfold tmpname, render_fmt in E. unfold cfg_prefix in H5. rewrite <- E, is_prefix_app in H5. discriminate.
   - apply tmpname_inj.
 Qed.
+
+(* the other sufficient condition (for formats that start with the verb, such as "%d" or "%dk"):
+   cfg_ok only needs the names to differ from the rendered temporaries *)
+Theorem cfg_ok_by_names cfg : cfg_in cfg <> [] -> cfg_out cfg <> [] -> cfg_in cfg <> cfg_out cfg ->
+  (forall n, tmpname cfg n <> cfg_in cfg) -> (forall n, tmpname cfg n <> cfg_out cfg) -> cfg_ok cfg.
+Proof. intros H1 H2 H3 H4 H5. constructor; auto. apply tmpname_inj. Qed.
 Close Scope N_scope.
